@@ -101,6 +101,24 @@ theorem C01_reblocked_wake_touches_no_storage (c : Cfg) (m : Mem) (r : Req) (res
   rw [if_pos hfull]
   exact ⟨rfl, rfl, rfl⟩
 
+/-- since `hasMoreSpace.Broadcast` wakes every blocked producer, WHICH of them re-locks the queue next is the scheduler's
+choice (`promote j`): it changes nothing durable, accepts nothing, and only permutes the blocked offers -/
+theorem C01_promote_touches_no_storage (c : Cfg) (j : Nat) :
+    (fire c (.promote j)).st = c.st ∧ (fire c (.promote j)).accepted = c.accepted ∧
+    (waitingOf (fire c (.promote j))).Perm (waitingOf c) := by
+  simp only [fire]
+  split
+  · next m heq =>
+    unfold doPromote
+    split
+    · exact ⟨rfl, rfl, List.Perm.refl _⟩
+    · next r hr =>
+      refine ⟨rfl, rfl, ?_⟩
+      have : waitingOf c = m.waiting := by simp [waitingOf, heq]
+      rw [this]
+      exact cons_eraseIdx_perm hr
+  · exact ⟨rfl, rfl, List.Perm.refl _⟩
+
 /-- **A request leaves storage only after a final hand-off.** -/
 theorem C01_delete_only_final (k : Conf) (ls : List Label) :
     ∀ r ∈ (run k ls).accepted, ¬ InStore (run k ls).st r → r ∈ (run k ls).finalised := by
@@ -440,6 +458,13 @@ example : (run { cap := 1, block := true } (exBlockScript.take 4)).res = .offerB
 example : (run { cap := 1, block := true } exBlockScript).res = .offerOk ∧
     (run { cap := 1, block := true } exBlockScript).accepted = [exB, exA] ∧
     (run { cap := 1, block := true } exBlockScript).st.items 1 = some exB := by decide
+
+-- Broadcast: two producers wait, space for one is freed; the scheduler lets the YOUNGER one re-lock first (`promote 1`):
+-- it is admitted, the older one re-checks, does not fit and waits again
+example : (run { cap := 1, block := true }
+      [.start, .tick, .offer exA, .offer exB, .offer exC, .read, .tick, .done 0 .final, .promote 1, .wake, .wake]).accepted = [exC, exA] ∧
+    (run { cap := 1, block := true }
+      [.start, .tick, .offer exA, .offer exB, .offer exC, .read, .tick, .done 0 .final, .promote 1, .wake, .wake]).res = .offerBlocked := by decide
 
 end Examples
 
